@@ -794,7 +794,8 @@ def run(chk, replay=None):
     chk.add_obligation("generated fact AsyncLogging_drain_after_loop=%s agrees with the real code on the F-8 witness family" % drain,
                        replay is not None or (f8_seen != drain))
     gen_problems = [x for x in pr.get("problems", []) if x.startswith("gen_C16.py")]
-    chk.add_obligation("generated facts of lib/gen_C16.py (drain after the loop, fit test, roll guard, 25/2/2) translated from the current sources without fallback",
+    chk.add_obligation("generated facts of lib/gen_C16.py (drain after the loop, fit test of AsyncLogging::append and copy test of FixedBuffer::append, roll guard, "
+                       "25/2/2, constructor defaults, shape of AppendFile::append's retry loop) translated from the current sources without fallback",
                        not gen_problems)
     chk.add_obligation("correspondence: extracted C16_Model (LogFile/AppendFile ops; AsyncLogging gate-to-gate steps) == real classes on every case", not corr_bad)
     chk.add_obligation("oracle: files read back == appended records (exactly once, whole, in order, announced drops only, stop flushes)", not oracle_bad and not known_bad)
@@ -802,8 +803,11 @@ def run(chk, replay=None):
                 "harness/C16_driver.cc: real AsyncLogging/LogFile/AppendFile, #define private public for observation, link-time interposition "
                 "(--wrap=time,gettimeofday,fwrite_unlocked,ferror,fflush,fputs,pthread_mutex_lock,pthread_cond_timedwait): virtual clock, scripted short "
                 "writes, gates that park the back-end thread; a timed wait parked at a gate returns ETIMEDOUT when released",
-                "translator lib/gen_consts.py / lib/gen_C16.py (clang 14 JSON AST): kRollPerSeconds_, kLargeBuffer, the literals 25/2/2 of threadFunc, "
-                "the shape fact 'a drain of currentBuffer_/buffers_ follows the while loop'",
+                "translator lib/gen_consts.py / lib/gen_C16.py (clang 14 JSON AST): kRollPerSeconds_, kLargeBuffer, kSmallBuffer, the literals 25/2/2 of threadFunc, "
+                "the shape facts 'push of currentBuffer_, swap of buffers_, output.append follow the while loop in this order', the comparison operators of "
+                "AsyncLogging::append / FixedBuffer::append / LogFile::rollFile, the default constructor arguments, the shape of AppendFile::append's loop",
+                "environment contract of C16_file_names_increase: strftime('.%Y%m%d-%H%M%S.') over gmtime_r has a fixed width and grows lexicographically with the "
+                "second (four-digit years); checked on every produced file name by the oracle (name <-> second, name order = creation order)",
                 "stdio/filesystem: fwrite_unlocked/fflush/fclose hand the bytes to the OS in order; 'on disk' = handed to the OS (no fsync); O_APPEND",
                 "sequential consistency of the std::atomic<bool> running_ and of pthread mutexes; std::vector/unique_ptr")
 
